@@ -53,10 +53,10 @@ def run(tier):
     chk = common.Check('C20', tier, LEVEL)
     work = common.scratch('C20')
     sources = [('tz2025b', compiler.lines_2025b()), ('shipped-zonedbx-lines', compiler.lines_shipped('zonedbx'))]
-    if tier == 'thorough':
-        import random
-        rnd = random.Random(common.seed() * 31 + 7)
-        sources.append(('gen', compiler.gen_source(rnd, 80)))
+    import random
+    rnd = random.Random(common.seed() * 31 + 7)
+    # a generated source over the documented grammar: offsets west and east of UTC that are not multiples of the basic granularity
+    sources.append(('gen', compiler.gen_source(rnd, 80 if tier == 'thorough' else 40)))
     runs = []
     pairs = []
     progs = 0
@@ -109,6 +109,9 @@ def run(tier):
             # identical behaviour of zones emitted in both scopes (truncation-noted zones excepted)
             rb, rx = res_by_scope['basic'], res_by_scope['extended']
             noted = {z for r in (rb, rx) for z, rs in r['notable_zones'].items() if any('truncat' in x for x in rs)}
+            # a truncation note on a policy counts for the zones that use the policy
+            notedpol = {p for r in (rb, rx) for p, rs in r['notable_policies'].items() if any('truncat' in x for x in rs)}
+            noted |= {z for r in (rb, rx) for z, ps in r['emitted_zone_policies'].items() if set(ps) & notedpol}
             for z in sorted(set(rb['emitted_zones']) & set(rx['emitted_zones'])):
                 pa, pb = compiler.to_pieces(rb['pieces'][z]['14-1-1']), compiler.to_pieces(rx['pieces'][z]['14-1-1'])
                 if pa != pb and z not in noted:
